@@ -225,6 +225,37 @@ Theorem C03_hash_compare_reload_refuted : ~ hash_compare_statement dH.
 Proof. exact hash_compare_refuted. Qed.
 Print Assumptions C03_hash_compare_reload_refuted.
 
+(* reads while the next block's MPT batch is applied but not finalised (the window between AddMPTBatch and
+   UpdateCurrentLocal in storeBlock; after a refusal it lasts until the next block): GetState / FindStates /
+   GetStateProof open a new trie from the requested root over the store, i.e. compute a function q of the STORED trie;
+   the pending batch does not change any such q, and the content read is the storage made by the accepted blocks *)
+Theorem C03_reads_ignore_pending_batch_general :
+  forall (trie hashT : Type) (empty_trie : trie) (content : trie -> smap)
+         (apply_batch : trie -> list change -> trie) (root : trie -> hashT)
+         (hash_eqb : hashT -> hashT -> bool) (tinv : trie -> Prop) (ok : change -> Prop)
+         (leak : trie -> list change -> trie) (seen : trie -> list change -> hashT),
+  iface_base empty_trie content apply_batch tinv ok ->
+  forall (A : Type) (q : trie -> A) (p : policy) (evs : list mevent) (s : mst trie hashT) (st : smap) (ws m : list change),
+  p = PFlag -> minv trie hashT content tinv st s -> Forall (mev_ok ok) evs ->
+  let s1 := mrun trie hashT apply_batch root hash_eqb leak seen p s evs in
+  read_committed trie hashT q (mstep trie hashT apply_batch root hash_eqb leak seen p s1 (MRej ws m)) = read_committed trie hashT q s1 /\
+  read_committed trie hashT content (mstep trie hashT apply_batch root hash_eqb leak seen p s1 (MRej ws m)) = storage_after st (accepted evs).
+Proof. exact reads_ignore_pending_batch. Qed.
+Print Assumptions C03_reads_ignore_pending_batch_general.
+
+Theorem C03_reads_ignore_pending_batch : forall (H : Trie.Model.bytes -> Trie.Model.bytes) evs ws m,
+  Forall (mev_ok cok) evs ->
+  ccontent (m_stored Trie.Model.node Trie.Model.bytes (cmrun H PFlag (evs ++ [MRej ws m]))) = storage_after [] (accepted evs).
+Proof. exact reads_ignore_pending_batch_concrete. Qed.
+Print Assumptions C03_reads_ignore_pending_batch.
+
+(* reading the latest root through a shallow copy of the module's in-memory trie (the idiom AddMPTBatch uses) is NOT
+   that function: the copy shares the nodes the pending batch changed; witness F1, F2 accepted, F3 pending: F3 is read *)
+Definition C03_shared_read_statement : Prop := forall H, shared_read_statement H.
+Theorem C03_shared_read_refuted : ~ shared_read_statement dH.
+Proof. exact shared_read_refuted. Qed.
+Print Assumptions C03_shared_read_refuted.
+
 Example C03_drops_example :
   Forall (mev_ok cok) dw_evs /\
   ccontent (m_stored Trie.Model.node Trie.Model.bytes (cmrun dH PFlag dw_evs)) = [([241], [1]); ([242], [2]); ([244], [4])] /\
